@@ -477,6 +477,103 @@ static void cursor_call(const json& v)
         rep.ok("cursor-ret");
 }
 
+// one visit of the whole message by the recursive visitor stopping at its
+// k-th callback (Visit.tla)
+static void visit_call(const json& v)
+{
+    auto& R = registry::get();
+    const std::string msg = v["msg"].get<std::string>();
+    const std::size_t v0 = v["v0"].get<std::size_t>();
+    const std::size_t size = v["size"].get<std::size_t>();
+    bool ext = false;
+    for(const auto& e : v["ext"])
+        ext = ext || e.get<int>() != 0;
+    bytes all = to_bytes(v["buf"]);
+    all.resize(v0 + size);
+    region reg(all.size(), true);
+    reg.load(all);
+    reg.readonly();
+    char* p = reg.data() + v0;
+    const int stop = v["stop"].get<int>();
+    std::vector<vevent> log;
+    std::ptrdiff_t end = 0;
+    rep.note_distinct(msg + std::to_string(stop) + hex(all));
+    const auto& vo = R.visits.at(msg);
+    std::string err = attempt([&] { end = vo.run(p, size, stop, log); });
+    json cs = {{"msg", msg}, {"stop", stop}, {"schema", g_schema}, {"ext", ext}};
+    const std::string tail = "/" + g_schema + ":" + msg;
+    if(!err.empty())
+    {
+        cs["events_before"] = log.size();
+        rep.mismatch(std::string("visit/trap") + tail, err, cs);
+        return;
+    }
+    const json& el = v["log"];
+    bool good = log.size() == el.size();
+    std::size_t bad_i = 0;
+    std::string why = "number of callbacks " + std::to_string(log.size())
+                      + ", expected " + std::to_string(el.size());
+    for(std::size_t i = 0; good && i < log.size(); i++)
+    {
+        const json& e = el[i];
+        std::string key = join(e["key"]);
+        if(log[i].ev != e["ev"].get<std::string>() || log[i].key != key)
+        {
+            good = false;
+            why = "callback " + std::to_string(i + 1) + " is " + log[i].ev + " "
+                  + log[i].key + ", schema order says " + e["ev"].get<std::string>()
+                  + " " + key;
+        }
+        else if(log[i].val != to_bytes(e["val"]) || log[i].n != e["n"].get<std::uint64_t>())
+        {
+            good = false;
+            why = "callback " + std::to_string(i + 1) + " (" + log[i].ev + " " + key
+                  + ") carried " + hex(log[i].val) + "/n=" + std::to_string(log[i].n)
+                  + ", named accessor gives " + hex(to_bytes(e["val"])) + "/n="
+                  + std::to_string(e["n"].get<long>());
+        }
+        bad_i = i;
+    }
+    if(!good)
+    {
+        cs["at"] = bad_i;
+        rep.mismatch(
+            std::string(stop ? "visit/stop-log" : "visit/log") + tail, why, cs);
+        return;
+    }
+    rep.ok(stop ? "visit-stop" : "visit-complete");
+    // cursor at each callback (same cursor object is threaded through)
+    for(std::size_t i = 0; i < log.size(); i++)
+    {
+        if(log[i].cur + (std::ptrdiff_t)v0 != el[i]["cur"].get<std::ptrdiff_t>()
+           && log[i].cur + (std::ptrdiff_t)v0 != el[i]["alt"].get<std::ptrdiff_t>())
+        {
+            cs["at"] = i;
+            rep.mismatch(
+                std::string("visit/cursor/") + log[i].ev + tail,
+                "at callback " + std::to_string(i + 1) + " (" + log[i].ev + " "
+                    + log[i].key + ") the cursor is at "
+                    + std::to_string(log[i].cur + v0) + ", protocol says "
+                    + std::to_string(el[i]["cur"].get<long>()),
+                cs);
+            return;
+        }
+    }
+    rep.ok("visit-cursors");
+    if(v["complete"].get<bool>())
+    {
+        if(end + (std::ptrdiff_t)v0 != v["end_cur"].get<std::ptrdiff_t>())
+            rep.mismatch(
+                std::string("visit/end") + tail,
+                "after a complete visit the cursor is at " + std::to_string(end + v0)
+                    + ", end of the message is "
+                    + std::to_string(v["end_cur"].get<long>()),
+                cs);
+        else
+            rep.ok("visit-end");
+    }
+}
+
 int main(int argc, char** argv)
 {
     install_handlers();
@@ -494,6 +591,8 @@ int main(int argc, char** argv)
                     encode(v);
                 else if(k == "cursor")
                     cursor_call(v);
+                else if(k == "visit")
+                    visit_call(v);
             });
         rep.finish();
         return 0;
